@@ -57,9 +57,9 @@ CHUNK_TIMEOUT_S = {'quick': 240, 'thorough': 3000}
 def plan(tier, seed):
   specs = [{'mode': 'directed', 'index': 0, 'count': 0, 'rseed': seed}]
   if tier == 'quick':
-    tree_chunks, per_tree = 8, 260
-    hist = [('hist_fn', 6, 5), ('hist_obj', 4, 3), ('hist_small', 6, 9)]
-    lru = (2, 150)
+    tree_chunks, per_tree = 16, 900
+    hist = [('hist_fn', 8, 16), ('hist_obj', 8, 8), ('hist_small', 8, 30)]
+    lru = (8, 300)
   else:
     tree_chunks, per_tree = 32, 12000
     hist = [('hist_fn', 16, 120), ('hist_obj', 16, 50), ('hist_small', 16, 360)]
